@@ -25,7 +25,7 @@ ID = "C19"
 LEVEL = "exploration"
 RULE = ("sched: case = (topology threads|processes, 2-4 callers each with 1-3 get_set/rmv operations - getters and bodies that "
         "raise, nested get_set on the same or a non-colliding key - over equal, distinct and 16-bit-hash-colliding keys, "
-        "pre-populated keys, schedule = list of ints choosing the next runnable caller at every lock/array/inner-cache/sleep "
+        "pre-populated keys and zero-length left-over entries (which the inner cache - as DiskCacher - discards and repopulates; a reader sent to such an entry gets an exception as for any torn file), schedule = list of ints choosing the next runnable caller at every lock/array/inner-cache/sleep "
         "operation); non-trivial = two callers touch the same or a colliding key and at least one of them writes or removes, and "
         "the executed schedule switches callers at least 3 times. pb: all schedules with <= k preemptions of fixed two-caller "
         "programs. torn: (lines, every byte prefix of the written .gz); non-trivial = value with >= 1 line. distinct = distinct canonical JSON")
@@ -34,6 +34,7 @@ ASSUMPTIONS = [
     "a caller never nests get_set on two different keys whose 16-bit hashes collide, and never calls rmv inside a with-block (lock-order deadlocks of the caller's own making are outside the property)",
     "injected failures are Exception subclasses raised by the getter or inside the with-body; a BaseException (interrupt) while streaming is only injected into DiskCacher itself, not through ConcurrentCacher",
     "the inner cache double reports a key as present from the moment its write begins (as DiskCacher does) and removes a partially written entry when the getter fails (as DiskCacher does)",
+    "an exception handed to a caller that reads a torn or zero-length cache file is an allowed outcome (the property forbids serving such an entry as complete, keeping a lock, or breaking mutual exclusion while it is discarded and repopulated); OpenmlSource reacts to it by clearing its cache keys and re-raising",
 ]
 
 KEYS = ["k74", "k408", "k120", "k1"]   # k74/k408 collide in the 16-bit lock table of the pinned tree; k120 and k1 are distinct
@@ -50,10 +51,17 @@ class Interrupt(BaseException):
     """Stands for KeyboardInterrupt/SystemExit arriving while a getter is streaming its value."""
 
 # ------------------------------------------------------------------------------------------------ monitor + inner cache double
+class TornEntry(TypeError):
+    """What DiskCacher raises (a TypeError: None is not iterable) when it is sent to READ an entry (getter None) whose file
+    turns out to be a zero-length left-over of a write cut at byte 0: it removes the file and has nothing to refill it with.
+    As for any other torn file the caller gets an exception - never an incomplete value (see `torn`)."""
+
 class Entry:
-    __slots__ = ("parts", "complete", "key")
-    def __init__(self, key):
-        self.key, self.parts, self.complete = key, [], False
+    __slots__ = ("parts", "complete", "key", "empty")
+    def __init__(self, key, empty=False):
+        self.key, self.parts, self.complete, self.empty = key, [], False, empty
+    def __iter__(self):            # a caller that streams the value (OpenmlSource does `yield from out`)
+        return iter(list(self.parts))
 
 class Monitor:
     def __init__(self):
@@ -61,6 +69,7 @@ class Monitor:
         self.writers = defaultdict(int)
         self.removers = defaultdict(int)
         self.getter_calls = 0
+        self.heal_removed = set()   # keys whose zero-length left-over was discarded and that were not written since
         self.violations = []
         self.events = []
         self.mutex = threading.Lock()   # counters stay exact under real threads; no yield point is inside a critical section
@@ -113,10 +122,26 @@ class MonitorCache(Cacher):
     def get_set(self, key, getter):
         self.s.yield_()
         m = self.mon
+        healed = False
+        e0 = self.store.get(key)
+        if e0 is not None and e0.empty:
+            # DiskCacher: a zero-length file counts as absent - it is unlinked and the entry is populated anew
+            self.s.yield_()
+            if self.store.get(key) is e0:
+                if m.readers[key] or m.writers[key] or m.removers[key]:
+                    m.flag(f"{self._who()} removes the zero-length entry {key!r} while it is being read/written/removed")
+                del self.store[key]
+                m.heal_removed.add(key)
+            healed = True
+            self.s.yield_()
         if key in self.store:
             if m.writers[key] or m.removers[key]:
                 m.flag(f"{self._who()} reads {key!r} while it is being written/removed")
             return ReadCtx(m, self.store[key], self._who())
+        if getter is None and (healed or key in m.heal_removed):
+            # (also a second reader that was sent here while the first one was discarding the zero-length file: DiskCacher finds
+            # no file and has no getter)
+            raise TornEntry("'NoneType' object is not iterable")
         if getter is None:
             m.flag(f"{self._who()} was sent to read {key!r} but the entry is not there (removed between the check and the read)")
             raise KeyError(key)
@@ -126,6 +151,7 @@ class MonitorCache(Cacher):
         m.log(self._who(), "write-begin", key)
         entry = Entry(key)
         self.store[key] = entry
+        m.heal_removed.discard(key)
         try:
             self.s.yield_()
             m.getter_calls += 1
@@ -204,7 +230,7 @@ def do_op(sched, mon, cacher, op, who):
                 check_entry(mon, entry, key, who)
             if op.get("body") == "raise":
                 raise Injected("body")
-    except Injected:
+    except (Injected, TornEntry):
         pass
 
 def run_program(case, sched):
@@ -214,6 +240,8 @@ def run_program(case, sched):
     for k in case.get("pre", []):
         e = Entry(k); e.parts = value_for(k, -2); e.complete = True
         inner.store[k] = e
+    for k in case.get("pre_empty", []):     # zero-length left-overs of writes cut at byte 0
+        inner.store[k] = Entry(k, empty=True)
     array = SeenArray(sched, 2 ** 16, seen)
     lock = SimLock(sched, "table-lock")
     shared = ConcurrentCacher(inner, array, lock) if case.get("topology", "threads") == "threads" else None
@@ -238,7 +266,7 @@ def colliding(a, b):
     return a != b and _idx(a) == _idx(b)
 
 def verdict(case, sched, result, mon, array, lock, cachers):
-    info = dict(parts=case["parts"], pre=case.get("pre", []), topology=case.get("topology", "threads"), trace=sched.trace[:60])
+    info = dict(parts=case["parts"], pre=case.get("pre", []), pre_empty=case.get("pre_empty", []), topology=case.get("topology", "threads"), trace=sched.trace[:60])
     if mon.violations:
         raise Violation("monitor: " + mon.violations[0] + f" | case={info}")
     if result == Sched.STEPS:
@@ -292,8 +320,10 @@ def sched_cases(draw, tier):
     n = draw(st.sampled_from([2, 2, 3, 3, 4]))
     maxops = 3 if tier == "quick" else 4
     parts = [draw(st.lists(op_strategy(), min_size=1, max_size=maxops)) for _ in range(n)]
+    pre = draw(st.lists(st.sampled_from(KEYS[:3]), unique=True, max_size=2))
+    pre_empty = [k for k in draw(st.lists(st.sampled_from(KEYS[:3]), unique=True, max_size=2)) if k not in pre] if draw(st.integers(0, 3)) == 0 else []
     return {"topology": draw(st.sampled_from(["threads", "procs"])), "parts": parts,
-            "pre": draw(st.lists(st.sampled_from(KEYS[:3]), unique=True, max_size=2)),
+            "pre": pre, "pre_empty": pre_empty,
             "choices": draw(st.lists(st.integers(0, 3), max_size=160 if tier == "quick" else 300)),
             "tail": draw(st.sampled_from([0, 0, 1, 2, 3]))}   # who runs once the drawn choices are used up
 
@@ -347,6 +377,7 @@ def classes_sched(case):
     out = [f"callers={len(case['parts'])}", case["topology"]]
     ops = [op for ops in case["parts"] for op in ops]
     if any(op["op"] == "rmv" for op in ops): out.append("has-rmv")
+    if case.get("pre_empty"): out.append("zero-length-leftover-entry")
     if any(op.get("getter", "").startswith("raise") for op in ops): out.append("getter-raises")
     if any(op.get("body") == "raise" for op in ops): out.append("body-raises")
     if any(op.get("nested") for op in ops): out.append("nested")
@@ -378,6 +409,8 @@ def pb_programs(tier):
     for p1, p2 in itertools.combinations_with_replacement(range(len(singles)), 2):
         for pre in ([], ["k74"]):
             progs.append(({"topology": "procs", "parts": [singles[p1], singles[p2]], "pre": pre}, 2))
+        if p1 < 5 and p2 < 5:   # the key starts as a zero-length left-over
+            progs.append(({"topology": "procs", "parts": [singles[p1], singles[p2]], "pre": [], "pre_empty": ["k74"]}, 2))
     if tier == "thorough":
         seqs = singles + doubles
         for i1, i2 in itertools.combinations_with_replacement(range(len(seqs)), 2):
@@ -559,6 +592,86 @@ def real_thread_cases(draw, tier):
     c.pop("choices", None)
     return c
 
+
+# ------------------------------------------------------------------------------------------------ OpenmlSource on the owned schedule
+def run_openml(case):
+    """OpenmlSource._get_data (the one caller of get_set/rmv inside coba) on a ConcurrentCacher over the monitored inner cache:
+    every reader receives the complete document, a document is requested from the server at most once while its entry stays
+    cached (once more per removal), and all the lock/monitor conditions of `sched` hold."""
+    from coba.context import CobaContext
+    from coba.environments.openml import OpenmlSource
+    s = Sched(choices=case.get("choices", ()), max_steps=6000, default_choice=case.get("tail", 0))
+    mon, seen = Monitor(), {}
+    inner = MonitorCache(s, mon)
+    for k in case.get("pre", []):
+        e = Entry(k); e.parts = value_for(k, -2); e.complete = True
+        inner.store[k] = e
+    array, lock = SeenArray(s, 2 ** 16, seen), SimLock(s, "table-lock")
+    shared = ConcurrentCacher(inner, array, lock)
+    requests, results = defaultdict(int), []
+    def http(url, *a, **kw):
+        key = url.split(":", 1)[1]
+        requests[key] += 1
+        gen = requests[key]
+        s.yield_()
+        yield key
+        s.yield_()
+        yield gen
+        yield "end"
+    old_cacher, old_time = CobaContext.cacher, cachers_mod.time
+    CobaContext.cacher, cachers_mod.time = shared, SleepShim(s, seen)
+    try:
+        for i, ops in enumerate(case["parts"]):
+            name = f"T{i}"
+            def body(ops=ops, name=name):
+                src = OpenmlSource(data_id=7)
+                src._http_request = http
+                for op in ops:
+                    if op["op"] == "rmv":
+                        CobaContext.cacher.rmv(op["key"])
+                    else:
+                        results.append((name, op["key"], list(src._get_data("url:" + op["key"], op["key"]))))
+            s.spawn(name, body)
+        result = s.run()
+    finally:
+        CobaContext.cacher, cachers_mod.time = old_cacher, old_time
+    case["_switches"] = len(s.trace)
+    verdict(case, s, result, mon, array, lock, [shared])
+    info = dict(parts=case["parts"], pre=case.get("pre", []), trace=s.trace[:60])
+    for name, key, got in results:
+        require(len(got) == 3 and got[0] == key and got[2] == "end", "a reader of OpenmlSource._get_data did not receive the complete document",
+                caller=name, key=key, got=got, case=info)
+    for key, n in requests.items():
+        removals = sum(1 for ops in case["parts"] for op in ops if op["op"] == "rmv" and op["key"] == key)
+        bound = (0 if key in case.get("pre", []) else 1) + removals
+        require(n <= bound, "a document was requested from the server more often than once per period in which it is not cached",
+                key=key, requests=n, bound=bound, case=info)
+
+@st.composite
+def openml_cases(draw, tier):
+    n = draw(st.sampled_from([2, 2, 3]))
+    keys = ["k74", "k1"]
+    def op():
+        return {"op": "rmv" if draw(st.integers(0, 4)) == 0 else "get", "key": draw(st.sampled_from(keys[:1] if draw(st.integers(0, 2)) else keys))}
+    return {"parts": [[op() for _ in range(draw(st.integers(1, 3)))] for _ in range(n)],
+            "pre": draw(st.lists(st.sampled_from(keys), unique=True, max_size=2)),
+            "choices": draw(st.lists(st.integers(0, 3), max_size=120)), "tail": draw(st.sampled_from([0, 0, 1, 2, 3]))}
+
+def nontrivial_openml(case):
+    per = [{op["key"] for op in ops} for ops in case["parts"]]
+    return any(a & b for a, b in itertools.combinations(per, 2)) and case.get("_switches", 3) >= 3
+
+def classes_openml(case):
+    out = []
+    ops = [op for p in case["parts"] for op in p]
+    if any(op["op"] == "rmv" for op in ops): out.append("with-rmv")
+    if case.get("pre"): out.append("pre-populated")
+    gets = defaultdict(int)
+    for op in ops:
+        if op["op"] == "get": gets[op["key"]] += 1
+    if any(v >= 2 for v in gets.values()): out.append("same-document-read-by-several")
+    return out
+
 # ------------------------------------------------------------------------------------------------ real worker processes
 def run_real_procs(case):
     """One watchdog expiry (60 s; a case normally takes 1-3 s) is inconclusive; three consecutive expiries on the same case are
@@ -644,6 +757,9 @@ SUBCHECKS = [
     Sub(name="sched", run=run_sched, strategy=sched_cases, nontrivial=nontrivial_sched, classes=classes_sched, key=key_sched, classify=classify_sched,
         quick=2400, thorough=120000, quick_shards=4, quick_budget_s=50,
         what="generated caller programs x generated schedules over ConcurrentCacher with instrumented lock/array/inner cache/sleep; invariant monitor, quiescence, sound deadlock detection"),
+    Sub(name="openml", run=run_openml, strategy=openml_cases, nontrivial=nontrivial_openml, classes=classes_openml, key=key_sched,
+        quick=1200, thorough=40000, quick_shards=2, thorough_shards=8, quick_budget_s=50,
+        what="OpenmlSource._get_data (coba's own caller of get_set/rmv) by 2-3 concurrent callers with rmv in between, on the owned schedule: complete document for every reader, at most one server request per period in which the entry is not cached, all lock/monitor conditions"),
     Sub(name="pb", run=run_pb, enumerate=pb_enumerate, nontrivial=lambda c: len(c["preemptions"]) >= 1, exhaustive=True,
         quick_shards=4, quick_budget_s=50, thorough_budget_s=1200,
         what="complete enumeration of all schedules with <= k preemptions of fixed programs over a 7-operation alphabet (incl. nested get_set on the same key and on another key): quick = two one-operation callers, k=1; thorough = the same with k=2, plus two callers with up to two operations and three one-operation callers with k=1"),
